@@ -129,6 +129,11 @@ pub fn run(ctx: &mut Ctx) {
     if !own_here {
         return;
     }
+    // (f) the process boundary: the real CLI binary and the real Python package
+    if ctx.profile == "release" {
+        crate::boundary::c01_cli(ctx);
+        crate::boundary::python(ctx, "c01");
+    }
     let thorough = ctx.tier_thorough;
     let x = xs(thorough);
     let datas = vec![json!(null), json!({"a": 1, "s": "x"}), json!([1, [2, 3]]), json!("héllo")];
